@@ -22,6 +22,7 @@ import (
 	"github.com/DrmagicE/gmqtt/server"
 
 	"verif/harness/broker"
+	"verif/harness/props/restored"
 	"verif/harness/monitor"
 	"verif/harness/mqttx"
 	"verif/harness/wire"
@@ -724,9 +725,38 @@ func refusedRequestV3(r *monitor.Run) {
 }
 
 // Run is the entry point.
+// restoredSessions: publishes (API and wire) that reach the queue of a session restored from the durable store at
+// start-up, to which nobody has reconnected yet - full queue, expired in-flight entry, expired message - must not
+// panic, must leave the broker answering, and Stop must return.
+func restoredSessions(r *monitor.Run) {
+	var wg sync.WaitGroup
+	for vi, variant := range restored.Variants {
+		for k := 0; k < r.Pick(2, 4); k++ {
+			wg.Add(1)
+			go func(variant restored.Variant, vi, k int) {
+				defer wg.Done()
+				res, err := restored.Run(variant, []byte{4, 5}[(vi+k)%2], k%2 == 0, 1+k%3)
+				r.Eval(1)
+				if err != nil {
+					r.Inconclusive(fmt.Sprintf("restored %s: %v", variant, err))
+					return
+				}
+				sigs, whats := res.Liveness()
+				for i := range sigs {
+					r.Violation(sigs[i], whats[i], map[string]any{"result": res})
+				}
+				r.Count("restored_session_scenarios", 1)
+				r.Nontrivial(fmt.Sprintf("restored|%s|%d", variant, k))
+			}(variant, vi, k)
+		}
+	}
+	wg.Wait()
+}
+
 func Run(r *monitor.Run) {
 	refusedRequestV3(r)
 	stopDuringTeardown(r)
+	restoredSessions(r)
 	rng := r.Rand("chaos")
 	n := r.Pick(4, 40)
 	procs := []int{16, 2, 4, 1}
